@@ -54,6 +54,8 @@ class SymInputs:
         return v
 
     def int(self, name, lo=None, hi=None):
+        if self.c.bv_ints and lo is not None and hi is not None and max(abs(lo), abs(hi)) < (1 << 48):
+            return self._reg(name, core.sym_int_bv(name, lo, hi))
         v = z3.Int(name)
         if lo is not None:
             self.c.add(v >= lo)
